@@ -8,6 +8,7 @@ package c17
 import (
 	"context"
 	"fmt"
+	"runtime/debug"
 	"sort"
 	"strings"
 	"sync"
@@ -492,6 +493,15 @@ func (r *run) release(w *worker, i int) {
 	h.rel()
 	w.stale = append(w.stale, h.rel)
 	r.event("op:rel")
+}
+
+// panicViolation: a panic inside a worker (i.e. inside pqueue) is a violation of its own.
+func panicViolation(w *worker, p any) *evid.Violation {
+	st := string(debug.Stack())
+	if len(st) > 3000 {
+		st = st[:3000]
+	}
+	return evid.V("panic-in-pqueue-call", "w%d op#%d (%s%v) panicked: %v\n%s", w.id, w.opIdx.Load(), w.curOp, w.curQs, p, st)
 }
 
 // drain is the final test: with every worker finished and everything released,
